@@ -395,13 +395,59 @@ fn run_borrowed(a: &Args, rep: &mut Report, n: u64) {
         }
         // Token
         let arena = Arena::new(&mut rng, 4);
+        let mut prev = Token::Undefined;
         for _ in 0..8 {
             let t = gen_token(&mut rng, &arena);
             check_token(&t, rep, rp("token"));
+            check_token_composites(&t, &prev, rep, rp("token"));
+            prev = t;
         }
     }
     rep.count_n("type/&str,&ByteSlice,&CStr,&Path", 4 * n / a.nshards.max(1));
     rep.count_n("type/Token", 8 * n / a.nshards.max(1));
+}
+
+/// Tokens inside the generic containers (Option, tuple, Vec, Result, array): the container impls
+/// must not reinterpret what the token's own encoding says (e.g. `undefined` is not "absent").
+/// `Option<Token>` holding `Token::Null` is the documented Option-in-Option exclusion.
+fn check_token_composites(t: &Token, u: &Token, rep: &mut Report, replay: Vec<String>) {
+    rep.eval();
+    let r = mon::guarded(|| {
+        macro_rules! rt {
+            ($name:expr, $v:expr, $ty:ty, $eq:expr) => {{
+                let v = $v;
+                let bytes = minicbor::to_vec(&v).map_err(|e| format!("{}: encode failed: {}", $name, e))?;
+                let mut d = Decoder::new(&bytes);
+                let w: $ty = d.decode().map_err(|e| format!("{}: decoding own encoding {} failed: {}", $name, hex(&bytes[..bytes.len().min(64)]), e))?;
+                let eq: fn(&$ty, &$ty) -> bool = $eq;
+                if !eq(&v, &w) {
+                    return Err(format!("{}: decoded {:?} from {}", $name, w, hex(&bytes[..bytes.len().min(64)])));
+                }
+                if d.position() != bytes.len() {
+                    return Err(format!("{}: position {} != length {}", $name, d.position(), bytes.len()));
+                }
+            }};
+        }
+        // a token that opens a container or is a break is not a complete item: containers of
+        // tokens are only well-defined for single-item tokens
+        let single = |t: &Token| !matches!(t, Token::Break | Token::BeginArray | Token::BeginMap | Token::BeginBytes | Token::BeginString | Token::Array(_) | Token::Map(_) | Token::Tag(_));
+        if single(t) && single(u) {
+            if !matches!(t, Token::Null) && !matches!(t, Token::Simple(22)) {
+                rt!("Option<Token>", Some(t.clone()), Option<Token>, |a, b| match (a, b) { (Some(x), Some(y)) => tok_equiv(x, y), (None, None) => true, _ => false });
+            }
+            rt!("(Token, u8, Token)", (t.clone(), 7u8, u.clone()), (Token, u8, Token), |a, b| tok_equiv(&a.0, &b.0) && a.1 == b.1 && tok_equiv(&a.2, &b.2));
+            rt!("Vec<Token>", vec![t.clone(), u.clone()], Vec<Token>, |a, b| a.len() == b.len() && a.iter().zip(b.iter()).all(|(x, y)| tok_equiv(x, y)));
+            rt!("[Token; 2]", [u.clone(), t.clone()], [Token; 2], |a, b| tok_equiv(&a[0], &b[0]) && tok_equiv(&a[1], &b[1]));
+            rt!("Result<Token, Token>", Ok::<Token, Token>(t.clone()), Result<Token, Token>, |a, b| match (a, b) { (Ok(x), Ok(y)) | (Err(x), Err(y)) => tok_equiv(x, y), _ => false });
+            rt!("Result<Token, Token>", Err::<Token, Token>(u.clone()), Result<Token, Token>, |a, b| match (a, b) { (Ok(x), Ok(y)) | (Err(x), Err(y)) => tok_equiv(x, y), _ => false });
+        }
+        Ok::<(), String>(())
+    });
+    match r {
+        Err(p) => viol(rep, "panic", "Token in container", &format!("{} at {}", p.message, p.location), format!("{:?} / {:?}", t, u), &[], replay),
+        Ok(Err(e)) => viol(rep, "roundtrip", "Token in container", &e, format!("{:?} / {:?}", t, u), &[], replay),
+        Ok(Ok(())) => rep.count("tokens inside Option / tuple / Vec / array / Result"),
+    }
 }
 
 fn run_token_exhaustive(a: &Args, rep: &mut Report) {
